@@ -207,6 +207,22 @@ def gen(rng, tier):
         ts = collection(rng, g, rng.randint(1, 5), rng.randint(4, 7), rng.choice([0, 0.5]))
         for bc in BAD_CUTOFFS:
             case(out, "bad-cutoff", ts, bc)
+    # hash extremes: the four names whose balanced split has Edge.HashCode exactly 0 (found by the author of a seeded
+    # change, C09-r6m1), in every tree / in most trees; and names colliding on the low 7 bits of their FNV hash
+    z = _c08.zero4_trees(g)
+    with_ab = [z[0], z[1], z[3], z[4]]          # contain {Aquila,Buteo}|{Corvus,Dendrocopos} (z[2], z[4] are rooted)
+    case(out, "hash-zero", [z[0], z[1], z[3]], Fraction(1, 2))
+    case(out, "hash-zero", [z[0], z[1], z[3]], Fraction(1))
+    case(out, "hash-zero", [z[1]], Fraction(1, 2))
+    case(out, "hash-zero", [z[0], z[2], z[4], z[1]], Fraction(3, 4))
+    case(out, "hash-zero", [z[0], z[1], z[5]], Fraction(1, 2))
+    case(out, "hash-zero", [z[0], z[6], z[1], z[3], z[5]], Fraction(1, 2))
+    case(out, "hash-zero", [z[6], z[0], z[6]], Fraction(1, 2))
+    for _ in range(3):
+        n = rng.randint(5, 8)
+        mp = dict(zip(["t%d" % i for i in range(n)], _c08.COLLIDE[:n]))
+        ts = [_c08.relabel(t, mp) for t in collection(rng, g, rng.randint(2, 5), n, rng.choice([0, 0.4]))]
+        case(out, "hash-collide", ts, rng.choice(CUTOFFS))
     # frequencies exactly on the threshold
     exact = [(2, 1), (4, 2), (4, 3), (5, 3), (6, 3), (6, 4), (8, 4), (8, 6), (5, 4), (3, 2)]
     for (n, c) in exact:
